@@ -59,7 +59,7 @@ class Sut:
         shutil.rmtree(self.base, ignore_errors=True)
 
     def run(self, capture: bytes, keylog, argv_opts, probes=None, pn_preset=None, cpu=60, extra_runs=None,
-            cwd_sub=None, env=None, infile_name="in.pcapng", keep=False):
+            cwd_sub=None, env=None, infile_name="in.pcapng", keep=False, pre_out=None):
         """argv_opts: list of extra CLI options (without -i/-o/-s).  keylog: bytes or None (no -s option).
         extra_runs: optional list of dict(capture, keylog, argv_opts) executed IN THE SAME PROCESS before/after
         (see C18); returns list of RunResult (one per run)."""
@@ -67,13 +67,17 @@ class Sut:
         rundir = os.path.join(self.base, "r%d" % self.n)
         os.makedirs(rundir)
         runs = []
-        specs = [dict(capture=capture, keylog=keylog, argv_opts=argv_opts)] + list(extra_runs or [])
+        specs = [dict(capture=capture, keylog=keylog, argv_opts=argv_opts, pre_out=pre_out)] + list(extra_runs or [])
         outs = []
         for j, sp in enumerate(specs):
             inp = os.path.join(rundir, "%d_%s" % (j, infile_name))
             with open(inp, "wb") as f:
                 f.write(sp["capture"])
             outp = os.path.join(rundir, "%d_out.pcapng" % j)
+            if sp.get("pre_out") is not None:
+                # the output path already holds a file left by an earlier export
+                with open(outp, "wb") as f:
+                    f.write(sp["pre_out"])
             argv = ["-i", inp, "-o", outp]
             if sp["keylog"] is not None:
                 kp = os.path.join(rundir, "%d_keys.log" % j)
